@@ -91,7 +91,7 @@ class TS:
                 hit = None
                 for o in src:
                     r = o.root
-                    if r[0] == 'call' and r[2] == cbi and not o.path:
+                    if r[0] == 'call' and r[2] == cbi and o.path in ((), ('?',)):
                         hit = 'direct'
                     elif r[0] == 'call' and r[1] == TRY_BRANCH:
                         # Try::branch(x): find x
